@@ -119,6 +119,35 @@ def r7_write_buffer(ctx):
         ok = any(mentions_field(c[1], ENC, 'min_buffer_capacity') or mentions_field(c[2], ENC, 'min_buffer_capacity') for c in cm) or \
             any(mentions_field(hc.expr_of_rvalue(rv), ENC, 'min_buffer_capacity') for bi, si, pl, rv, ln in hc.stmts())
         r.check(ok, 'has_capacity|threshold', hc.file, 'compared with Encoder.min_buffer_capacity')
+        # the sum that is compared, whichever way it is written: + BytesMut::capacity(buf) - BytesMut::len(buf) - min_buffer_capacity.
+        # The length subtracted is that of the *allocated buffer* (bytes already handed to the socket are only released when
+        # the whole buffer has been written), not Cursor::remaining() (the unwritten part)
+        forms = []
+        exprs = [(c[1], c[2]) for c in cm] + [(strip(hc.expr_of_rvalue(rv))[2], strip(hc.expr_of_rvalue(rv))[3]) for bi, si, pl, rv, ln in hc.stmts()
+                                                if rv[0] == 'bin' and rv[1] in ('Lt', 'Le', 'Gt', 'Ge')]
+        for lhs, rhs in exprs:
+            a, b = core.signed_leaves(lhs), core.signed_leaves(rhs, -1)
+            if a is None or b is None:
+                continue
+            leaves = a + b
+            if not any(mentions_field(x, ENC, 'min_buffer_capacity') for sg, x in leaves):
+                continue
+
+            def kind(x):
+                x = strip(x)
+                if x[0] == 'call' and x[1].endswith('BytesMut::capacity'):
+                    return 'capacity'
+                if x[0] == 'call' and x[1].endswith('BytesMut::len'):
+                    return 'len'
+                if mentions_field(x, ENC, 'min_buffer_capacity'):
+                    return 'min'
+                return 'other:' + core.show(x)[:40]
+            sig = sorted((kind(x), sg) for sg, x in leaves)
+            # orientation-free: either (cap, +), (len, -), (min, -) or all signs reversed
+            norm = sorted((k, sg * (1 if dict(sig).get('capacity', 1) > 0 else -1)) for k, sg in sig)
+            forms.append(norm)
+        okf = bool(forms) and all(fm == [('capacity', 1), ('len', -1), ('min', -1)] for fm in forms)
+        r.check(okf, 'has_capacity|sum', hc.file, 'the gate compares capacity() - len() of the allocated buffer with min_buffer_capacity: %s' % forms)
     # growth of the buffer only in Encoder::buffer / unset_frame (the encode sites), which assert has_capacity
     b = r.fn(ENC + '::buffer')
     if b:
